@@ -314,10 +314,19 @@ func prefillValue(cs ColSpec, seed uint64, i int, col int) Value {
 		return Value{S: recBytes3(uint32(h), fmt.Sprintf("r%d", h%3), c)}
 	case KBool:
 		return Value{B: h & 1}
-	case KFloat32:
-		return Value{B: canon(KFloat32, uint64(float32ToBits(float32(int32(h%2000)-1000)/4)))}
-	case KFloat64:
-		return Value{B: float64ToBits(float64(int64(h%2000)-1000) / 4)}
+	case KFloat32, KFloat64:
+		f := float64(int64(h%2000)-1000) / 4
+		if (h>>20)%4 == 0 {
+			// one value in four is a zero, half of them negative: neighbours that compare equal without being the same value
+			f = 0
+			if (h>>24)&1 == 1 {
+				f = math.Copysign(0, -1)
+			}
+		}
+		if cs.Kind == KFloat32 {
+			return Value{B: canon(KFloat32, uint64(float32ToBits(float32(f))))}
+		}
+		return Value{B: float64ToBits(f)}
 	}
 	if !cs.Kind.Signed() {
 		return Value{B: canon(cs.Kind, h%1001)}
